@@ -1,4 +1,5 @@
 """C08: filter patterns select by any positive match and no negated match."""
+import copy
 import itertools
 import json
 import os
@@ -150,6 +151,16 @@ def run(chk, tier, seed, replay=None):
                 k += 1
                 cases.append({'id': 'e%d' % k, 'world': dict(w, id='e%d' % k),
                               'o': {key: list(c), 'list': True}, 'mode': 'inproc'})
+    # --layer over nested declarations: a suite that declares layer L1 holds classes that
+    # declare L2 / nothing (a pattern that rejects the outer declaration says nothing about the inner ones)
+    w2 = e2e_world()
+    inner = [c for c in w2['classes'] if c != 'TL1']
+    w2['suite'] = {'children': [{'layer': 'L1', 'children': [{'cls': c} for c in inner]}, {'cls': 'TL1'}]}
+    for n in (1, 2):
+        for c in itertools.product(lpool, repeat=n):
+            k += 1
+            cases.append({'id': 'e%d' % k, 'world': dict(copy.deepcopy(w2), id='e%d' % k),
+                          'o': {'layer': list(c), 'list': True}, 'mode': 'inproc'})
     if tier != 'quick':
         for c in itertools.product(tpool, repeat=3):
             k += 1
